@@ -7,4 +7,34 @@ S="$(mktemp -d /tmp/verif-setup-XXXXXX)"; trap 'rm -rf "$S"' EXIT
 cp "$HERE/harness/go.mod" "$S/go.mod"; cp /repo/go.sum "$S/go.sum"
 ( cd "$HERE/harness" && go build -modfile="$S/go.mod" -tags verif -o "$S/vcheck" ./cmd/vcheck ) || exit 1
 ( cd /repo && go build -o "$S/yaccgo" ./yaccgo ) || exit 1
+# base build cache for the batches of generated parsers (harness/pipe/gocache.go makes it on first use otherwise)
+if [ ! -f "$HERE/.cache/gobase/ok" ]; then
+  mkdir -p "$S/stub" "$S/gobase" "$HERE/.cache"
+  printf 'module verifstub\n\ngo 1.18\n' > "$S/stub/go.mod"
+  cat > "$S/stub/main.go" <<'EOT'
+package main
+
+import (
+	"encoding/json"
+	"fmt"
+	"os"
+	"runtime"
+	"strconv"
+	"strings"
+	"sync"
+	"sync/atomic"
+)
+
+var _ = json.Marshal
+var _ = strconv.Itoa
+var _ = strings.Join
+var _ = runtime.Gosched
+var _ sync.Mutex
+var _ = atomic.AddInt64
+
+func main() { fmt.Println(os.Args) }
+EOT
+  ( cd "$S/stub" && GOCACHE="$S/gobase" go build -o "$S/stub/stub" . && GOCACHE="$S/gobase" go build -race -o "$S/stub/stub" . ) \
+    && echo ok > "$S/gobase/ok" && mv "$S/gobase" "$HERE/.cache/gobase" 2>/dev/null
+fi
 echo setup ok
